@@ -36,7 +36,7 @@ type kind struct {
 }
 
 func kindsFor(n int, thorough bool) []kind {
-	ks := []kind{{K: "file"}, {K: "dir"}, {K: "missing"}, {K: "deleted"}, {K: "outside"}}
+	ks := []kind{{K: "file"}, {K: "dir"}, {K: "missing"}, {K: "deleted"}, {K: "outside"}, {K: "outside", Spell: "abs"}}
 	for j := 0; j < n; j++ {
 		ks = append(ks, kind{K: "link", To: j, Spell: "rel"}, kind{K: "link", To: j, Spell: "abs"})
 		if thorough {
@@ -61,7 +61,13 @@ func build(g []kind) [][]byte {
 			l0 = append(l0, imgkit.File(name(i), "deleted"))
 			l1 = append(l1, imgkit.Whiteout(name(i)))
 		case "outside":
-			l0 = append(l0, imgkit.Sym(name(i), "../../x"))
+			// a target that climbs above the image root, spelled relative or absolute; if it were
+			// clamped to the root it would hit the file "x"
+			t := "../../x"
+			if k.Spell == "abs" {
+				t = "/d/../../x"
+			}
+			l0 = append(l0, imgkit.Sym(name(i), t))
 		case "link":
 			t := fmt.Sprintf("e%d", k.To)
 			switch k.Spell {
@@ -145,6 +151,9 @@ func graphStr(g []kind) string {
 		s := k.K
 		if k.K == "link" {
 			s = fmt.Sprintf("->e%d(%s)", k.To, k.Spell)
+		}
+		if k.K == "outside" && k.Spell == "abs" {
+			s = "outside(abs)"
 		}
 		parts = append(parts, fmt.Sprintf("e%d:%s", i, s))
 	}
@@ -336,5 +345,5 @@ func main() {
 	}
 	os.RemoveAll(base)
 	r.Set("bound", map[string]any{"entries_completed": completed, "depths": depths})
-	r.Finish(fmt.Sprintf("every kind assignment to n<=%d entries (file, dir, missing, deleted by layer 1, outside-root symlink, symlink to each entry spelled relative/absolute%s) x MaxSymlinkDepth 0..6 x every entry x {Stat, Open+Read, ReadDir} on the final view and on the intermediate view (whiteout nodes still present) of the real image vs the reference resolver; each query under a 60 s watchdog; non-trivial = queries whose chain has >=1 hop", maxN, map[bool]string{true: "/with ..", false: ""}[r.Thorough()]), completed >= maxN)
+	r.Finish(fmt.Sprintf("every kind assignment to n<=%d entries (file, dir, missing, deleted by layer 1, outside-root symlink spelled relative (../../x) and absolute (/d/../../x), symlink to each entry spelled relative/absolute%s) x MaxSymlinkDepth 0..6 x every entry x {Stat, Open+Read, ReadDir} on the final view and on the intermediate view (whiteout nodes still present) of the real image vs the reference resolver; each query under a 60 s watchdog; non-trivial = queries whose chain has >=1 hop", maxN, map[bool]string{true: "/with ..", false: ""}[r.Thorough()]), completed >= maxN)
 }
